@@ -81,7 +81,7 @@ KEY_NEXUS = "C13/nexus-model-node-stale-after-data-change"
 
 
 def floors(tier):
-    f = 1 if tier == "quick" else 20
+    f = 1 if tier == "quick" else 10
     comp = {
         "data/exactness-class": 300 * f,
         "data/error-constant": 100 * f,
@@ -392,6 +392,16 @@ def deriv_bound(spec, p, edges, order):
     return out
 
 
+def ref_uncertainty(spec, p, edges):
+    """absolute rounding error of ref_integral itself: the normal part is a difference of erf/erfc values of size <= 1
+    (polynomial parts are exact, the exponential part uses expm1 and is relatively accurate)"""
+    u = np.zeros(len(edges) - 1)
+    for w, kind, _ in components(spec, p):
+        if kind == "normal":
+            u = u + 8.0 * np.finfo(float).eps * abs(w)
+    return u
+
+
 def single_panel_regime(spec, p, edges):
     """True when every bin is narrower than 7 sigma and the density changes by less than e^30 across it (measured on the
     unchanged QUADPACK: one 21-point Gauss-Kronrod panel is then accurate to < 1e-13 of width*max|f|, so the 1e-9 bound
@@ -467,7 +477,7 @@ def check_bins(ctx, st, got, mult, where, obs_main=None, key=None):
             ok &= _cmp(ctx, "data/antiderivative-vs-integral", got, mult * ref_integral(spec, p, edges), am * (1e-12 * F_scale(spec, p, edges) + 1e-12 * scale), detail, key)
     elif method == "numerical":
         ref = ref_integral(spec, p, edges)
-        atol = 1e-9 * scale
+        atol = 1e-9 * scale + ref_uncertainty(spec, p, edges)
         wide = not single_panel_regime(spec, p, edges)
         if wide:
             # outside the regime in which one 21-point Gauss-Kronrod panel resolves the density to rounding: only quad's
@@ -486,7 +496,7 @@ def check_bins(ctx, st, got, mult, where, obs_main=None, key=None):
             w = np.diff(edges)
             pw, const = {"simpson": (5, 2880.0), "trapezoid": (3, 12.0), "midpoint": (3, 24.0)}[rule]
             bound = w**pw / const * deriv_bound(spec, p, edges, pw - 1)
-            ok &= _cmp(ctx, "data/rule-error-bound", got, mult * ref_integral(spec, p, edges), am * (bound * (1 + 1e-9) + 1e-12 * scale), detail, key)
+            ok &= _cmp(ctx, "data/rule-error-bound", got, mult * ref_integral(spec, p, edges), am * (bound * (1 + 1e-9) + 1e-12 * scale + ref_uncertainty(spec, p, edges)), detail, key)
     return bool(ok)
 
 
@@ -685,6 +695,50 @@ def gen_case(rng, tier, idx, kind=None, fam=None, method=None, dens=None):
     return {"property": "C13", "index": idx, "kind": "fit", "spec": spec, "params": p0, "edges": edges, "fill": fill, "method": spell(rng, method), "density": dens, "ops": ops, "xs": xs, "observe_node": bool(rng.random() < 0.5)}
 
 
+def _exponent_ok(spec, params, xs):
+    """the user's density / antiderivative stays inside the double range (math.exp raises beyond e^709)"""
+    x = np.asarray(xs, dtype=float)
+    for _, kind, args in components(spec, params):
+        if kind == "expo" and (not np.isfinite(args[0]) or np.max(-args[0] * x) > 500.0):
+            return False
+        if kind == "normal" and not (np.isfinite(args[0]) and np.isfinite(args[1])):
+            return False
+    return True
+
+
+def history_in_range(case):
+    """walk the history on the harness side only: every (parameters, edges, xs) combination it visits is representable"""
+    spec, xs = case["spec"], list(case.get("xs", []))
+    params, edges = list(case["params"]), list(case["edges"])
+    names = spec["names"]
+    if not _exponent_ok(spec, params, edges + xs):
+        return False
+    for op in case.get("ops", []):
+        if op[0] in ("parameters", "set_all_parameter_values"):
+            params = list(op[1])
+        elif op[0] == "set_parameter_values":
+            for nm, v in op[1].items():
+                params[names.index(nm)] = v
+        elif op[0] == "fix_parameter" and op[2] is not None:
+            params[names.index(op[1])] = op[2]
+        elif op[0] in ("new_edges", "rebin", "set_data"):
+            edges = list(op[1])
+        elif op[0] == "eval_other_parameters":
+            if not _exponent_ok(spec, op[1], xs):
+                return False
+        if not _exponent_ok(spec, params, edges + xs):
+            return False
+    return True
+
+
+def gen_valid_case(rng, tier, idx, **kw):
+    for _ in range(50):
+        case = gen_case(rng, tier, idx, **kw)
+        if history_in_range(case):
+            return case
+    raise AssertionError("generator cannot produce an in-range history for %r" % (kw,))
+
+
 def strata_plan():
     plan = []
     for fam in FAMILIES:
@@ -834,7 +888,7 @@ def classify_rebin(model, st):
             return None
         model.parameters = model.parameters
         q = Quiet()
-        check_bins(q, st, model.data, 1.0, "classifier")
+        check_bins(q, st, model.data, 1.0, "classifier", obs_main="classifier")
         return KEY_REBIN if q.ok else None
     except Exception:
         return None
@@ -883,7 +937,7 @@ def classify_nexus(fit, st, mult, last_mut):
             return None
         node.mark_for_update()
         q = Quiet()
-        check_bins(q, st, node.value, mult, "classifier", obs_main="x")
+        check_bins(q, st, node.value, mult, "classifier", obs_main="classifier")
         return KEY_NEXUS if q.ok else None
     except Exception:
         return None
@@ -967,8 +1021,8 @@ def run_fit(ctx, case):
         else:
             raise AssertionError(op)
         ctx.op("fit:" + op[0])
-        if not _sane(st):
-            ctx.discard("parameters left the domain of the family (sigma/lam <= 0)")
+        if not _sane(st) or not _exponent_ok(st["spec"], st["params"], list(st["edges"]) + list(case["xs"])):
+            ctx.discard("parameters left the domain of the family (sigma/lam <= 0 or exp overflow)")
             return False
         nontrivial_bins |= nonzero_expected(st) and (st["n_entries"] > 0 or not case["density"])
         if not read_fit(ctx, fit, st, case, where, last_mut):
@@ -1043,9 +1097,9 @@ def run_shard(ctx):
             case = forced_fit_case(ctx.rng, ctx.tier, idx)
         elif idx <= len(plan):
             kind, fam, m, dens = plan[idx - 1]
-            case = gen_case(ctx.rng, ctx.tier, idx, kind=kind, fam=fam, method=m, dens=dens)
+            case = gen_valid_case(ctx.rng, ctx.tier, idx, kind=kind, fam=fam, method=m, dens=dens)
         else:
-            case = gen_case(ctx.rng, ctx.tier, idx)
+            case = gen_valid_case(ctx.rng, ctx.tier, idx)
         idx += 1
         ctx.begin_case(case)
         try:
